@@ -31,13 +31,15 @@ func init() { wk.Register("c15", c15) }
 const (
 	c15AllocConst  = 1 << 20 // 1 MiB
 	c15AllocPerIn  = 4096    // bytes of allocation allowed per input byte
-	c15CPULimitNs  = 5e9     // 5 s of thread CPU per decode call
+	c15CPULimitNs  = 5e9     // 5 s of thread CPU per decode call ...
+	c15CPUPerInNs  = 25000   // ... plus 25 us per input byte (see DESIGN 13: a legitimate 1.6 MB input of 512 gzip layers costs 4-5 us per byte, and twice that on a loaded machine)
 	c15HangCPUSecs = 60      // process CPU consumed by one case before the in-process monitor gives up
 )
 
 type c15mon struct {
 	sample  []metrics.Sample
 	caseSeq int64 // incremented at each call start
+	inLen   int64 // length of the input of the running call
 	inCall  int32 // 1 while a decode call is running (the no-termination monitor only judges time spent inside calls)
 	c       *wk.Ctx
 }
@@ -104,6 +106,7 @@ func (m *c15mon) call(idx int, in []byte, entry string, class string, f func() e
 	a0 := m.allocs()
 	t0 := threadCPU()
 	var err error
+	atomic.StoreInt64(&m.inLen, int64(len(in)))
 	atomic.StoreInt32(&m.inCall, 1)
 	pan, pm, st := wk.Guard(func() { err = f() })
 	atomic.StoreInt32(&m.inCall, 0)
@@ -114,7 +117,9 @@ func (m *c15mon) call(idx int, in []byte, entry string, class string, f func() e
 		c.Viol("C15", idx, "panic/"+entry+"/"+st+"/"+panicClass(pm), fmt.Sprintf("%s on %d bytes (%s): %s", entry, len(in), class, wk.Short(pm, 300)), fmt.Sprintf("%x", clipIn(in)))
 		return
 	}
-	if t1-t0 > c15CPULimitNs {
+	cpuBound := int64(c15CPULimitNs) + int64(c15CPUPerInNs)*int64(len(in))
+	c.Max("max.cpu_permille_of_bound", (t1-t0)*1000/cpuBound)
+	if t1-t0 > cpuBound {
 		c.Viol("C15", idx, "cpu/"+entry, fmt.Sprintf("%s on %d bytes (%s) used %.1f s of CPU", entry, len(in), class, float64(t1-t0)/1e9), fmt.Sprintf("%x", clipIn(in)))
 	}
 	delta := int64(a1 - a0)
@@ -195,7 +200,7 @@ func c15(c *wk.Ctx) {
 				cpuAtStart = procCPU()
 				continue
 			}
-			if procCPU()-cpuAtStart > c15HangCPUSecs*1e9 {
+			if procCPU()-cpuAtStart > c15HangCPUSecs*1e9+100000*atomic.LoadInt64(&m.inLen) { // process CPU (all threads, GC included): 60 s + 100 us per input byte
 				c.Log.Emit(core.Event{Ev: "viol", Prop: "C15", Sig: "no-termination", Detail: fmt.Sprintf("one decode call consumed more than %d s of CPU without returning (see the .cur file for the input)", c15HangCPUSecs)})
 				os.Exit(4)
 			}
